@@ -328,7 +328,8 @@ CLAIMS = {
     note="Proved: the theorems above about the Lean model. Validated only (differential, not proved): that the model equals the Rust parser "
          "and lowering; integer/float literal values (no Lean theorem: the value is computed by Rust's str::parse, the harness compares with "
          "an independently computed expectation); items, patterns and types are not in the OPERATOR-tree generator (they are in the round-11 "
-         "program generator of the lowering tie); NOT proved: the lower_fn / whole-File wrapper of lower_ctor_iff (proved for expressions, blocks, arms from any stack), "
+         "program generator of the lowering tie); NOT proved: the fold of lower_ctor_iff over lower_item to one whole-File statement (proved for expressions, blocks, arms from any stack and "
+         "for lower_fn from the empty stack), lower_fuel_suffices, "
          "lower_parse_print beyond operator trees, "
          "sufficiency of the model's fuel, source ranges of lowering diagnostics (not modelled). "
          "Trusted: Lean kernel, tools/extract.py regexes, harness AST dump and trivia insertion, the real lexer (C12) for token boundaries.",
